@@ -113,6 +113,13 @@ var c07Positions = []string{
 	"\t_ = [...]string{%[1]s: \"i\"}",
 	"\t_ = map[string]int{\"v\": %[1]s}",
 	"\t_ = T{f: %[1]s}",
+	"var vi%[2]d %[1]s[int, string]",
+	"\t_ = %[1]s[int, string](1)",
+	"type tl%[2]d struct{ f %[1]s[int, string] }",
+	"var vs%[2]d = v[1:2:%[1]s]",
+	"\tfor %[1]s = range v {\n\t}",
+	"\tswitch v.(type) {\n\tcase int, interface{ M(%[1]s) }:\n\t}",
+	"var vc%[2]d <-chan %[1]s",
 }
 
 func c07Names() map[string]string {
